@@ -15,6 +15,7 @@ func init() {
 	register("B1", "operand-side handling: every arm of a HasBinary implementation that returns a value for a non-commutative operator with an operand of a different type tests `side` on the way to that return (same-type arms are exempt: Binary dispatches the left operand first), so the reversed operation is never computed", 8, ruleB1)
 	register("B2", "instant-based comparison: Time/Duration Cmp and Hash use only zone-independent accessors (no Format, Zone, Location, calendar fields, struct ==)", 3, ruleB2)
 	register("B3", "no compare-by-subtraction: Cmp/CompareSameType implementations do not derive their result from the sign of a 64-bit difference (which wraps for operands far apart)", 3, ruleB3)
+	register("B5", "one operator per arm: every value-returning arm of a Binary method is reachable under exactly one operator token (a merged `case PLUS, MINUS:` must discriminate the operator again before returning), so x + y never silently computes x - y", 5, ruleB5)
 	register("B4", "integer operands use integer arithmetic: in the arms of lib/time's Binary methods where the other operand is a starlark.Int, the result is not computed through a float64 conversion", 2, ruleB4)
 }
 
@@ -56,22 +57,27 @@ type binArm struct {
 }
 
 func binaryArms(p *Prog, fn *ssa.Function) []binArm {
+	return binaryArms1(p, fn, fn.Params[1], fn.Params[2], fn.Params[3], nil, false, 0)
+}
+
+// binaryArms1 collects the value-returning arms of fn. When an arm merely
+// returns the results of a package-local helper (`return d.sub(y, side)`),
+// the helper's arms are collected instead, inheriting the operator facts.
+func binaryArms1(p *Prog, fn *ssa.Function, opP, yP, sideP ssa.Value, inheritedOps []string, inheritedSide bool, depth int) []binArm {
 	toks := tokenNames(p)
-	opP, yP, sideP := fn.Params[1], fn.Params[2], fn.Params[3]
 	var arms []binArm
 	eachInstr(fn, func(in ssa.Instruction) {
 		r, ok := in.(*ssa.Return)
 		if !ok || len(r.Results) != 2 || isNilConst(r.Results[0]) {
 			return
 		}
-		// value-returning return (possibly a phi including nil: treat as value)
-		arm := binArm{ret: r}
+		arm := binArm{ret: r, ops: append([]string{}, inheritedOps...), sideTest: inheritedSide}
 		for _, pc := range pathConds(r.Block()) {
 			cond, neg := stripNot(pc.If.Cond)
 			taken := pc.Branch != neg
 			switch x := cond.(type) {
 			case *ssa.BinOp:
-				if (x.X == opP || x.Y == opP) && x.Op == token.EQL && taken {
+				if opP != nil && (x.X == opP || x.Y == opP) && x.Op == token.EQL && taken {
 					kv := x.Y
 					if x.Y == opP {
 						kv = x.X
@@ -80,7 +86,7 @@ func binaryArms(p *Prog, fn *ssa.Function) []binArm {
 						arm.ops = append(arm.ops, toks[k])
 					}
 				}
-				if usesValue(x, sideP) {
+				if sideP != nil && usesValue(x, sideP) {
 					arm.sideTest = true
 				}
 			case *ssa.Extract:
@@ -92,7 +98,39 @@ func binaryArms(p *Prog, fn *ssa.Function) []binArm {
 				}
 			}
 		}
-		// && chains lower to nested ifs; `side` may also be used to swap operands via phi: count any If on side dominating
+		// delegation to a helper?
+		if ex, ok := r.Results[0].(*ssa.Extract); ok && depth < 3 {
+			if call, ok := ex.Tuple.(*ssa.Call); ok {
+				if cal := call.Call.StaticCallee(); cal != nil && cal.Blocks != nil && fnPkgPath(cal) == fnPkgPath(fn) {
+					var hy, hside, hop ssa.Value
+					for i, a := range call.Call.Args {
+						if i >= len(cal.Params) {
+							break
+						}
+						switch a {
+						case yP:
+							hy = cal.Params[i]
+						case sideP:
+							hside = cal.Params[i]
+						case opP:
+							hop = cal.Params[i]
+						}
+					}
+					if hy != nil {
+						sub := binaryArms1(p, cal, hop, hy, hside, arm.ops, arm.sideTest, depth+1)
+						if arm.ytype != "" {
+							for i := range sub {
+								if sub[i].ytype == "" {
+									sub[i].ytype = arm.ytype
+								}
+							}
+						}
+						arms = append(arms, sub...)
+						return
+					}
+				}
+			}
+		}
 		arms = append(arms, arm)
 	})
 	return arms
@@ -252,11 +290,38 @@ func ruleB3(c *Ctx) {
 // ---------- B4 ----------
 
 func ruleB4(c *Ctx) {
+	// the Binary methods of lib/time and the per-operator helpers they delegate to
+	var fns []*ssa.Function
+	seenB := map[*ssa.Function]bool{}
 	for _, fn := range binaryMethods(c.P) {
 		if fnPkgPath(fn) != modPath+"/lib/time" {
 			continue
 		}
-		yP := fn.Params[2]
+		work := []*ssa.Function{fn}
+		seenB[fn] = true
+		for i := 0; i < len(work) && i < 12; i++ {
+			fns = append(fns, work[i])
+			eachInstr(work[i], func(in ssa.Instruction) {
+				if ci, ok := in.(ssa.CallInstruction); ok {
+					if cal := ci.Common().StaticCallee(); cal != nil && cal.Blocks != nil && fnPkgPath(cal) == modPath+"/lib/time" && !seenB[cal] {
+						seenB[cal] = true
+						work = append(work, cal)
+					}
+				}
+			})
+		}
+	}
+	for _, fn := range fns {
+		// the operand: any parameter of interface type starlark.Value
+		var yP ssa.Value
+		for _, prm := range fn.Params {
+			if qualType(prm.Type()) == "starlark.Value" {
+				yP = prm
+			}
+		}
+		if yP == nil {
+			continue
+		}
 		// blocks dominated by the ok-edge of y.(starlark.Int)
 		eachInstr(fn, func(in ssa.Instruction) {
 			ifi, ok := in.(*ssa.If)
@@ -275,11 +340,14 @@ func ruleB4(c *Ctx) {
 			toks := tokenNames(c.P)
 			opName := "?"
 			for _, pc := range pathConds(ifi.Block()) {
-				if bo, ok := pc.If.Cond.(*ssa.BinOp); ok && bo.Op == token.EQL && pc.Branch && bo.X == fn.Params[1] {
+				if bo, ok := pc.If.Cond.(*ssa.BinOp); ok && bo.Op == token.EQL && pc.Branch && len(fn.Params) > 1 && bo.X == fn.Params[1] {
 					if k, isK := constInt(bo.Y); isK {
 						opName = toks[k]
 					}
 				}
+			}
+			if opName == "?" {
+				opName = fn.Name()
 			}
 			key := fmt.Sprintf("%s: arm %s with starlark.Int uses integer arithmetic", fnName(fn), opName)
 			bad := ""
@@ -310,3 +378,137 @@ func ruleB4(c *Ctx) {
 }
 
 var _ = constant.Int
+
+// opSetsAt computes, for every block of fn, the set of operator constants the
+// parameter opP can hold when the block executes (nil = unconstrained).
+func opSetsAt(fn *ssa.Function, opP ssa.Value) map[*ssa.BasicBlock]map[int64]bool {
+	const anyKey = int64(-1 << 62)
+	sets := map[*ssa.BasicBlock]map[int64]bool{}
+	if len(fn.Blocks) == 0 {
+		return sets
+	}
+	sets[fn.Blocks[0]] = map[int64]bool{anyKey: true}
+	for changed := true; changed; {
+		changed = false
+		for _, b := range fn.Blocks {
+			cur := sets[b]
+			if cur == nil {
+				continue
+			}
+			push := func(succ *ssa.BasicBlock, s map[int64]bool) {
+				if sets[succ] == nil {
+					sets[succ] = map[int64]bool{}
+				}
+				for k := range s {
+					if !sets[succ][k] {
+						sets[succ][k] = true
+						changed = true
+					}
+				}
+			}
+			if len(b.Instrs) > 0 {
+				if ifi, ok := b.Instrs[len(b.Instrs)-1].(*ssa.If); ok {
+					if bo, ok := ifi.Cond.(*ssa.BinOp); ok && bo.Op == token.EQL && (bo.X == opP || bo.Y == opP) {
+						kv := bo.Y
+						if bo.Y == opP {
+							kv = bo.X
+						}
+						if k, isK := constInt(kv); isK {
+							push(b.Succs[0], map[int64]bool{k: true})
+							rest := map[int64]bool{}
+							for x := range cur {
+								if x != k {
+									rest[x] = true
+								}
+							}
+							push(b.Succs[1], rest)
+							continue
+						}
+					}
+				}
+			}
+			for _, s := range b.Succs {
+				push(s, cur)
+			}
+		}
+	}
+	for _, s := range sets {
+		if s[anyKey] {
+			for k := range s {
+				delete(s, k)
+			}
+			s[anyKey] = true
+		}
+	}
+	return sets
+}
+
+func ruleB5(c *Ctx) {
+	toks := tokenNames(c.P)
+	const anyKey = int64(-1 << 62)
+	n := 0
+	for _, fn := range binaryMethods(c.P) {
+		opP := fn.Params[1]
+		sets := opSetsAt(fn, opP)
+		eachInstr(fn, func(in ssa.Instruction) {
+			r, ok := in.(*ssa.Return)
+			if !ok || len(r.Results) != 2 || isNilConst(r.Results[0]) {
+				return
+			}
+			n++
+			s := sets[r.Block()]
+			var names []string
+			for k := range s {
+				if k == anyKey {
+					names = append(names, "<any>")
+				} else {
+					names = append(names, toks[k])
+				}
+			}
+			sort.Strings(names)
+			key := fmt.Sprintf("%s: value returned under %s", fnName(fn), strings.Join(names, "|"))
+			pos := c.P.Pos(leakPos(r))
+			switch {
+			case len(s) == 1 && !s[anyKey]:
+				c.ok(key, pos, "reachable under exactly one operator")
+			case s[anyKey]:
+				// no switch on op at all on this path (e.g. an if-form `y.(*T) && op == PLUS` lowers to nested ifs handled above); accept if some dominating condition tests op
+				tested := false
+				for _, pc := range pathConds(r.Block()) {
+					if bo, ok := pc.If.Cond.(*ssa.BinOp); ok && (bo.X == opP || bo.Y == opP) {
+						tested = true
+					}
+				}
+				if tested {
+					c.ok(key, pos, "operator tested on the path")
+				} else {
+					c.viol(key, pos, "a Binary method returns a value without ever testing which operator was applied")
+				}
+			default:
+				// merged case: the returned value must depend on op (computed from a phi/branch on op after the merge)
+				dep := false
+				for y := range backSlice(r.Results[0]) {
+					if phi, ok := y.(*ssa.Phi); ok {
+						for _, pred := range phi.Block().Preds {
+							if len(pred.Instrs) > 0 {
+								if ifi, ok := pred.Instrs[len(pred.Instrs)-1].(*ssa.If); ok {
+									if bo, ok := ifi.Cond.(*ssa.BinOp); ok && (bo.X == opP || bo.Y == opP) {
+										dep = true
+									}
+								}
+							}
+						}
+					}
+				}
+				if dep {
+					c.ok(key, pos, "merged case, but the result is selected by a further test of the operator")
+				} else {
+					c.viol(key, pos, fmt.Sprintf("the same value is computed for operators %s: at least one of them yields the result of a different operation than the one written", strings.Join(names, " and ")))
+				}
+			}
+		})
+	}
+	if n < 5 {
+		c.anchorFail("only %d value-returning arms found in Binary methods", n)
+	}
+}
